@@ -90,6 +90,7 @@ class IdOracle(Oracle):
     def __init__(self):
         self.st = {}  # deck idx -> state
         self.tainted = set()
+        self.bound = {}  # id(part) -> {rId: (reltype, target)} for rIds the part's XML refers to
 
     # -- state capture --
     def _capture(self, w, deck):
@@ -116,6 +117,7 @@ class IdOracle(Oracle):
 
     def on_open(self, w, deck):
         self.st[deck.idx] = self._capture(w, deck)
+        self.bound = {}
 
     def after_event(self, w, ev, outcome):
         for deck in w.decks:
@@ -197,6 +199,20 @@ class IdOracle(Oracle):
                         w.stats.hit("c06_rid_legally_reused_after_drop")
                         continue
                     w.report("rid|reassigned-while-in-use", "part=%s %s: %r -> %r" % (part.partname, rid, orels[rid], rels[rid]), CLAUSES["rid"])
+        # 3b. the same over more than one event: an id that stays referenced by the part's XML keeps meaning the relationship it meant
+        # when the reference was made - also when the relationship vanished for a while (dropped although still referenced) and a
+        # later, unrelated addition takes the freed id
+        for pid, (part, rels, refs) in new["rels"].items():
+            b = self.bound.setdefault(pid, {})
+            for rid in [r_ for r_ in b if r_ not in refs]:
+                del b[rid]
+            for rid in refs:
+                if rid not in rels:
+                    continue        # referenced but absent: C02's question; what it meant is remembered
+                if rid in b and b[rid] != rels[rid] and rid not in (old["rels"].get(pid, (None, {}, set()))[1]):
+                    w.report("rid|reassigned-while-in-use", "part=%s %s was dropped while the XML still referred to it and now means %r (meant %r)" % (
+                        part.partname, rid, rels[rid], b[rid]), CLAUSES["rid"])
+                b[rid] = rels[rid]
             w.stats.hit("c06_rid_checks", len(refs & orefs))
         # 4a. part names unique
         dup = [n for n, c in new["names"].items() if c > 1]
